@@ -588,7 +588,6 @@ class LangServer:
         no_use = False
         type_mask = set_type_mask(False)
         type_mask[MODULE_TYPE_ID] = True
-        type_mask[CLASS_TYPE_ID] = True
         if line_context == "mod_only":
             # Module names only (USE statement)
             for key in self.obj_tree:
